@@ -123,7 +123,9 @@ impl FaultKind {
 
 #[derive(Clone, Copy, Debug, PartialEq, Eq, Serialize, Deserialize)]
 pub struct Fault {
-    /// op-local seam-event index; fires at the first value event with index >= at
+    /// op-local seam-event index.  Value faults fire only if exactly this event is
+    /// an arithmetic one (not a constant constructor / conversion / comparison);
+    /// Unwind fires at the first arithmetic event with index >= at
     pub at: u64,
     pub kind: FaultKind,
 }
@@ -258,10 +260,17 @@ pub fn event(k: u8, a: u64, b: u64, r: u64) -> u64 {
         }
         let mut out = r;
         // fault point
-        if !c.faults.is_empty() && kind::is_value(k) {
+        if !c.faults.is_empty() && kind::is_arith(k) {
             let mut i = 0;
             while i < c.faults.len() {
-                if idx >= c.faults[i].at {
+                // value faults hit exactly the planned event (or never); an unwind
+                // hits the first arithmetic event at or after its index
+                let hit = if c.faults[i].kind == FaultKind::Unwind {
+                    idx >= c.faults[i].at
+                } else {
+                    idx == c.faults[i].at
+                };
+                if hit {
                     let f = c.faults.remove(i);
                     c.fired.push((idx, f.kind, k));
                     if f.kind == FaultKind::Unwind {
